@@ -72,7 +72,8 @@ def segments(r, answer, style):
         elif style == "bytes":
             k = 1
         else:
-            k = r.choice([1, 2, 3, 7, 64, 127, 128, r.randrange(1, 129)])
+            # 114..118: information sizes for which the frame's length byte (or a byte next to it) equals the flag 0x7E
+            k = r.choice([1, 2, 3, 7, 64, 127, 128, 114, 115, 116, 117, 118, r.randrange(1, 129)])
         out.append(data[pos:pos + k])
         pos += k
     return out
